@@ -273,6 +273,7 @@ type cRecorder struct {
 	rc       *RemoteClient
 	autoReady bool          // call Ready(NextMessageID()) on every AcceptRegister (handler 0 only)
 	readyOwn  bool          // ...but derive the id from the handler's own progress (last delivered + 1)
+	readyBack uint64        // ...minus this many (the application lost its newest records), at least 1
 	lastID    uint64
 	delayNS  int64 // sleep in HandleTx/HandleTxUpdate (slow handler), atomic
 	readyErr []error
@@ -304,7 +305,15 @@ func (r *cRecorder) HandleMessage(ctx context.Context, p MessagePayload) {
 			next := r.rc.NextMessageID()
 			if r.readyOwn {
 				next = atomic.LoadUint64(&r.lastID) + 1
+				if back := atomic.LoadUint64(&r.readyBack); back > 0 && atomic.LoadUint64(&r.lastID) > 0 {
+					if next > back {
+						next -= back
+					} else {
+						next = 1
+					}
+				}
 			}
+			r.log.add(cEvent{Handler: r.id, Kind: "ready", ID: next})
 			if err := r.rc.Ready(ctx, next); err != nil {
 				r.readyErr = append(r.readyErr, err)
 			}
@@ -335,6 +344,7 @@ type cOpt struct {
 	handlers       int
 	autoReady      bool
 	readyOwn       bool
+	readyBack      uint64
 	handlerDelay   time.Duration
 }
 
@@ -366,7 +376,7 @@ func newCEnv(opt cOpt, onConn func(*vconn)) (*cEnv, error) {
 		n = 2
 	}
 	for i := 0; i < n; i++ {
-		r := &cRecorder{id: i, log: e.log, rc: rc, autoReady: opt.autoReady && i == 0, readyOwn: opt.readyOwn, delayNS: int64(opt.handlerDelay)}
+		r := &cRecorder{id: i, log: e.log, rc: rc, autoReady: opt.autoReady && i == 0, readyOwn: opt.readyOwn, readyBack: opt.readyBack, delayNS: int64(opt.handlerDelay)}
 		e.recs = append(e.recs, r)
 		rc.RegisterHandler(r)
 	}
